@@ -94,10 +94,24 @@ class ShowN (N : Type) where
   showN : N → List String
 instance : ShowN (V3 Float) := ⟨fun v => [ff v.x, ff v.y, ff v.z]⟩
 instance : ShowN Unit := ⟨fun _ => []⟩
+/-- printing of vertices, and the box operations of `Triangle::local_aabb` / `Aabb::merged` (Rust `f64::min/max`) -/
 class ShowV (V : Type) where
   showV : V → List String
-instance : ShowV (V3 Float) := ⟨fun v => [ff v.x, ff v.y, ff v.z]⟩
-instance : ShowV (V2 Float) := ⟨fun v => [ff v.x, ff v.y]⟩
+  vinf : V → V → V
+  vsup : V → V → V
+  /-- `Aabb::new_invalid()`: mins = `+f64::MAX`, maxs = `-f64::MAX` -/
+  invMin : V
+  invMax : V
+def fmaxv : Float := Float.ofBits 0x7FEFFFFFFFFFFFFF
+instance : ShowV (V3 Float) := ⟨fun v => [ff v.x, ff v.y, ff v.z], V3.inf, V3.sup, ⟨fmaxv, fmaxv, fmaxv⟩, ⟨-fmaxv, -fmaxv, -fmaxv⟩⟩
+instance : ShowV (V2 Float) := ⟨fun v => [ff v.x, ff v.y], V2.inf, V2.sup, ⟨fmaxv, fmaxv⟩, ⟨-fmaxv, -fmaxv⟩⟩
+
+/-- `Triangle::local_aabb` -/
+def triBox {V} [ShowV V] (c : V × V × V) : V × V :=
+  (ShowV.vinf (ShowV.vinf c.1 c.2.1) c.2.2, ShowV.vsup (ShowV.vsup c.1 c.2.1) c.2.2)
+/-- root box of the QBVH: the merge of all leaf boxes (min / max are exact, so the tree shape does not matter) -/
+def rootBox {V} [ShowV V] (cs : List (V × V × V)) : V × V :=
+  cs.foldl (fun acc c => let b := triBox c; (ShowV.vinf acc.1 b.1, ShowV.vsup acc.2 b.2)) (ShowV.invMin, ShowV.invMax)
 
 def showPN {N} [ShowN N] : Option (PN N) → List String
   | none => ["P", "-"]
@@ -114,7 +128,13 @@ def sameVerts {V N} [Geo V N] : List V → List V → Bool
 def showState {V N} [Geo V N] [ShowV V] [ShowN N] (w dim3 : Bool) (s : Mesh V N) : List String :=
   let head := ["V", toString s.vertices.length] ++ s.vertices.flatMap ShowV.showV ++
     ["I", toString s.indices.length] ++ s.indices.flatMap (fun t => [toString t.a, toString t.b, toString t.c]) ++
-    ["F", toString s.flags.toNat, "D"] ++ showDerived s.derived
+    ["F", toString s.flags.toNat, "A"] ++
+    (let rb := rootBox (s.qbvh.getD []); ShowV.showV rb.1 ++ ShowV.showV rb.2) ++
+    -- `Q 1`: the leaf boxes the QBVH was built from are the boxes of the current triangles
+    ["Q", (match s.qbvh, allCoords s.vertices s.indices with
+           | some cs, some cur => if (cs.map fun c => let b := triBox c; ShowV.showV b.1 ++ ShowV.showV b.2) ==
+                                     (cur.map fun c => let b := triBox c; ShowV.showV b.1 ++ ShowV.showV b.2) then "1" else "0"
+           | _, _ => "0"), "D"] ++ showDerived s.derived
   let lit : List String :=
     if s.indices.isEmpty then ["e"] else
     match (if w then buildCoreW dim3 s.vertices s.indices s.flags else buildCore dim3 s.vertices s.indices s.flags) with
@@ -167,6 +187,9 @@ structure ODerived where
 
 structure OState where
   nv : Nat
+  coords : List (List Float)
+  box : List Float
+  q : Nat
   idx : List Tri
   flags : Flags
   d : ODerived
@@ -200,9 +223,11 @@ def pderived (dimN : Nat) : P ODerived := do
   pure ⟨topo, cc, pn⟩
 
 def pstate (dim : Nat) : P OState := do
-  expect "V"; let nv ← pnat; let _ ← rep tok (nv * dim)
+  expect "V"; let nv ← pnat; let coords ← rep (rep pfo dim) nv
   expect "I"; let idx ← plist ptri
   expect "F"; let f ← pnat
+  expect "A"; let box ← rep pfo (2 * dim)
+  expect "Q"; let qv ← pnat
   expect "D"; let d ← pderived dim
   expect "L"
   let t ← peek
@@ -212,7 +237,7 @@ def pstate (dim : Nat) : P OState := do
   let t ← peek
   let der ← (if t = "e" ∨ t = "panic" then do let _ ← tok; pure none else do let x ← pderived dim; pure (some x) : P (Option ODerived))
   pend
-  pure ⟨nv, idx, Flags.ofNat f, d, lit, tag, der⟩
+  pure ⟨nv, coords, box, qv, idx, Flags.ofNat f, d, lit, tag, der⟩
 
 /-- numeric equality of printed floats (`-0 = 0` by the canonical print; NaN only equals NaN) -/
 def feq (x y : Float) : Bool :=
@@ -325,6 +350,22 @@ def specCheck (dim3 : Bool) (s : OState) : Option String :=
   | _, _, some e => some e
   | _, _, _ => none
 
+/-- the root box of the QBVH is the exact bounding box of the vertices used by the triangles -/
+def checkBox (dim : Nat) (s : OState) : Option String :=
+  let used : List (List Float) := s.idx.flatMap fun t => [t.a, t.b, t.c].filterMap fun i => s.coords[i]?
+  if used.length != 3 * s.idx.length then some "spec:A index-out-of-bounds" else
+  if s.box.any (fun x => x.isNaN) then some "spec:A nan" else
+  let bad := (List.range dim).find? fun k =>
+    let xs := used.map fun p => q (p.getD k 0)
+    let lo := s.box.getD k 0
+    let hi := s.box.getD (dim + k) 0
+    match xs with
+    | [] => !(lo == fmaxv && hi == -fmaxv)
+    | x :: r => !(q lo == r.foldl min x && q hi == r.foldl max x)
+  match bad with
+  | some k => some s!"spec:A root-aabb-axis-{k}"
+  | none => if s.q = 1 then none else some "qbvh-differs-from-fresh"
+
 def judgeState (dim3 : Bool) (s : OState) : Option String :=
   let g : Option String := match s.der with
     | none => none
@@ -336,11 +377,12 @@ def judgeState (dim3 : Bool) (s : OState) : Option String :=
     | some d => match diffDerived s.d d with
       | [] => none
       | fs => some ("differs-from-fresh(L) fields=" ++ ",".intercalate fs)
-  match g, l, specCheck dim3 s with
-  | some e, _, _ => some e
-  | _, some e, _ => some e
-  | _, _, some e => some e
-  | _, _, _ => none
+  match g, l, specCheck dim3 s, checkBox (if dim3 then 3 else 2) s with
+  | some e, _, _, _ => some e
+  | _, some e, _, _ => some e
+  | _, _, some e, _ => some e
+  | _, _, _, some e => some e
+  | _, _, _, _ => none
 
 def splitSegs (toks : List String) : List (List String) :=
   let r := toks.foldl (fun (acc : List (List String) × List String) t =>
